@@ -170,6 +170,43 @@ fn structured_frames() -> Vec<(String, Vec<u8>)> {
             v.push((format!("demand-active with capability type {:#x} body {}", ty, blen), sdi(&share::demand_active(SID, 1002, b"RDP\0", &caps, 0))));
         }
     }
+    // every data PDU the client parses, each 16-bit word of its payload set to 0 / 0x7FFF / 0xFFFF in every combination
+    // (two counters multiplied with each other need two faults at once)
+    for (t2, words) in [(0x1Fu8, 2usize), (0x14, 4), (0x28, 4), (0x2F, 2), (0x27, 4)] {
+        let n = 3usize.pow(words as u32);
+        for combo in 0..n {
+            let mut c = combo;
+            let mut payload = vec![];
+            for _ in 0..words {
+                payload.extend([0u16, 0x7FFF, 0xFFFF][c % 3].to_le_bytes());
+                c /= 3;
+            }
+            v.push((format!("share data pduType2 {:#x} with payload words {}", t2, vref::bytes::hex(&payload)), sdi(&share::share_data(SID, 1002, t2, &payload))));
+        }
+    }
+    // capability bodies may hold text (the IME file name of the input capability, ...): bodies made of UTF-16 units that are
+    // not text (lone surrogates, reversed pairs), of valid pairs, of 0xFF / 0x80 fills, in the places of a real list too
+    for ty in 1..=0x1Eu16 {
+        for blen in [8usize, 24, 84, 88] {
+            for (fname, unit) in [("lone high surrogates", vec![0x00u8, 0xD8]), ("lone low surrogates", vec![0x00, 0xDC]), ("A, lone surrogate, B", vec![0x41, 0x00, 0x00, 0xD8, 0x42, 0x00]), ("reversed pairs", vec![0x00, 0xDC, 0x00, 0xD8]), ("valid pairs", vec![0x3D, 0xD8, 0x00, 0xDE]), ("0xD8 fill", vec![0xD8])] {
+                let body: Vec<u8> = unit.iter().cycle().take(blen).copied().collect();
+                // (a) alone next to the minimal list, (b) in the place of the same type inside the Windows list, keeping its first
+                // 20 bytes (the numeric fields in front of the text of the input capability)
+                let mut caps = share::minimal_caps();
+                caps.insert(1, share::CapSet { ty, body: body.clone() });
+                v.push((format!("demand-active with capability type {:#x} body {} of {}", ty, blen, fname), sdi(&share::demand_active(SID, 1002, b"RDP\0", &caps, 0))));
+                if blen == 84 {
+                    let mut wcaps = share::parse_demand_active_body(&share::windows_capture_demand_active()).expect("embedded capture").2;
+                    for c in wcaps.iter_mut().filter(|c| c.ty == ty && c.body.len() > 20) {
+                        let n = c.body.len();
+                        let tail: Vec<u8> = unit.iter().cycle().take(n - 20).copied().collect();
+                        c.body[20..].copy_from_slice(&tail);
+                    }
+                    v.push((format!("Windows demand-active whose capability type {:#x} holds {} after its first 20 bytes", ty, fname), sdi(&share::demand_active(SID, 1002, b"RDP\0", &wcaps, 0))));
+                }
+            }
+        }
+    }
     for (delta, name) in [(1i32, "one more"), (-1, "one less"), (100, "a hundred more")] {
         let caps = share::minimal_caps();
         let capbytes: Vec<u8> = caps.iter().flat_map(share::cap_bytes).collect();
@@ -560,7 +597,7 @@ impl Prop for C06 {
         d
     }
     fn rule(&self) -> String {
-        "cases = (client state 0..5 reached by the honest activation prefix of a client configured, in rotation, 800x600 / 65535x65535 with a 30-byte name / 0x0 without a name / 65533x1, one server frame with <=1 deviation (<=2 thorough)). PDU kinds: demand-active (Windows capability list and minimal), deactivate-all, synchronize, control, font-map, set-error-info, an unparsed data PDU, two share PDUs in one frame, a confirm-active sent by the server, fast-path bitmap (raw + compressed-with-header rectangles), fast-path pointer/synchronize updates, unknown fast-path codes. Deviations: every byte offset x value set (12 boundary values + honest+-1; all 256 in thorough), every offset as 16/32-bit field in both byte orders x boundary set, every truncation, extensions {+1,+2,+1500}; [inner-*] every byte string of length <=2 (<=3 in thorough for the Data state, and state 0 at the share-control entry) and every string of length 3..4 (..6 in thorough) over 8 boundary bytes at the MCS, share-control (states 0,1,5 in quick, all six in thorough) and fast-path parser entries, and as raw unframed bytes at the frame reader; [pairs, thorough] all pairs of {byte:=00, byte:=FF, truncate} over all offsets, in states 0 and 5. [structured] well-formed frames with consistent length fields in each of the six states: every share-control type x version bits x body length, every pduType2 0..0x40 x payload length 0..12, every prefix of the honest body of each data PDU the client parses, TPKT frames whose body is 1..6 bytes long (every X.224 code byte behind 4 length indicators), compression / stream bytes (for every parsed data PDU: 5 compression-type bytes x 13 compressedLength values), a demand-active carrying a capability of every type 0..0x1F, 0xFF, 0xFFFF x body length, source descriptors of 0..300 bytes in ASCII / Latin-1 / 2-3-4-byte UTF-8 at every alignment / invalid UTF-8 / UTF-16, capability counts off by +-1 / +100, no and 2000 capabilities, every MCS domain-PDU choice 0..63, every disconnect reason, indications on other channels / from other users, every fast-path update code x fragmentation x compression bit x body length (also under the header's secure-checksum / encrypted flags), rectangle counts 0..0xFFFF against two present; [frame-pairs] every ordered pair of 10 well-formed share PDUs in one frame, in each of the six states. After the hostile frame an honest PDU is read to expose desynchronisation loops, then, whether the hostile frame was tolerated or refused, the server plays the rest of an honest activation from that state followed by fast-path output and a data PDU, with an input attempt after every step: neither a tolerated fault nor a refused one may blow up later. [long-lived] eight sessions on one active client: 400 frames of PDUs it ignores; frames packing 400 and 1400 PDUs; re-activations whose demand-active announces fewer / other / no / all capability sets; 100 000 indications on the user channel and 70 000 on a channel never joined, queued at once; 300 re-activations rotating four capability lists; 2 000 fast-path frames with unknown codes and empty payloads; re-activations during which the transport refuses one write of the client's answer (10 positions x 3 error kinds x 5 capability lists), the demand-active then sent again. Non-trivial: the frame differs from the honest one.".into()
+        "cases = (client state 0..5 reached by the honest activation prefix of a client configured, in rotation, 800x600 / 65535x65535 with a 30-byte name / 0x0 without a name / 65533x1, one server frame with <=1 deviation (<=2 thorough)). PDU kinds: demand-active (Windows capability list and minimal), deactivate-all, synchronize, control, font-map, set-error-info, an unparsed data PDU, two share PDUs in one frame, a confirm-active sent by the server, fast-path bitmap (raw + compressed-with-header rectangles), fast-path pointer/synchronize updates, unknown fast-path codes. Deviations: every byte offset x value set (12 boundary values + honest+-1; all 256 in thorough), every offset as 16/32-bit field in both byte orders x boundary set, every truncation, extensions {+1,+2,+1500}; [inner-*] every byte string of length <=2 (<=3 in thorough for the Data state, and state 0 at the share-control entry) and every string of length 3..4 (..6 in thorough) over 8 boundary bytes at the MCS, share-control (states 0,1,5 in quick, all six in thorough) and fast-path parser entries, and as raw unframed bytes at the frame reader; [pairs, thorough] all pairs of {byte:=00, byte:=FF, truncate} over all offsets, in states 0 and 5. [structured] well-formed frames with consistent length fields in each of the six states: every share-control type x version bits x body length, every pduType2 0..0x40 x payload length 0..12, every prefix of the honest body of each data PDU the client parses, every combination of {0, 0x7FFF, 0xFFFF} over the 16-bit words of those bodies, TPKT frames whose body is 1..6 bytes long (every X.224 code byte behind 4 length indicators), compression / stream bytes (for every parsed data PDU: 5 compression-type bytes x 13 compressedLength values), a demand-active carrying a capability of every type 0..0x1F, 0xFF, 0xFFFF x body length, capability bodies made of UTF-16 units that are not text (lone / reversed surrogates, 0xD8 fills) alone and inside the Windows list, source descriptors of 0..300 bytes in ASCII / Latin-1 / 2-3-4-byte UTF-8 at every alignment / invalid UTF-8 / UTF-16, capability counts off by +-1 / +100, no and 2000 capabilities, every MCS domain-PDU choice 0..63, every disconnect reason, indications on other channels / from other users, every fast-path update code x fragmentation x compression bit x body length (also under the header's secure-checksum / encrypted flags), rectangle counts 0..0xFFFF against two present; [frame-pairs] every ordered pair of 10 well-formed share PDUs in one frame, in each of the six states. After the hostile frame an honest PDU is read to expose desynchronisation loops, then, whether the hostile frame was tolerated or refused, the server plays the rest of an honest activation from that state followed by fast-path output and a data PDU, with an input attempt after every step: neither a tolerated fault nor a refused one may blow up later. [long-lived] eight sessions on one active client: 400 frames of PDUs it ignores; frames packing 400 and 1400 PDUs; re-activations whose demand-active announces fewer / other / no / all capability sets; 100 000 indications on the user channel and 70 000 on a channel never joined, queued at once; 300 re-activations rotating four capability lists; 2 000 fast-path frames with unknown codes and empty payloads; re-activations during which the transport refuses one write of the client's answer (10 positions x 3 error kinds x 5 capability lists), the demand-active then sent again. Non-trivial: the frame differs from the honest one.".into()
     }
     fn assumptions(&self) -> Vec<String> {
         vec!["memory rule: single request > 1 MiB or peak > 16 MiB + 1024 x bytes received".into(), "the six states are reached through RdpClient::read on the raw stack (hooks H3/H4); TLS record handling is not part of this property".into()]
